@@ -8,7 +8,7 @@ TWO_PHASE = True
 SHARDS = 16
 RUN_TIMEOUT = 1500
 RULE = ("histories on a real bus connection over an in-memory scripted fake bus that records every AddMatch/RemoveMatch with its "
-        "rule string: MessageStream::for_match_rule over a pool of 11 rules (equal rules spelt differently, refining and "
+        "rule string: MessageStream::for_match_rule over a pool of 13 rules (equal rules spelt differently, refining and "
         "overlapping signal rules, an untyped rule, method_call/method_return/error rules, rules equal to the ones proxies use), "
         "MessageStream::clone, Proxy (unique and well-known destinations, two proxies on one destination) with receive_signal / "
         "receive_all_signals / receive_signal_with_args, two receive_signal futures polled alternately on one proxy, drop and "
